@@ -149,8 +149,15 @@ Definition set_creating (b : bool) (s : gst) : gst :=
      g_buckets := g_buckets s; g_renames := g_renames s; g_tie := g_tie s |}.
 
 Section Gen.
-  Variable a : api.
+  (* the generator reads the API only through the class dictionary and the re-export map *)
+  Variable classes : list (str * cls).
+  Variable reexport_map : list (str * list rmod).
   Variable nc : bool.
+
+  (* name emission, used at every declaration site: (Python name to annotate, rendered identifier) *)
+  Definition emit_name (is_class : bool) (n : str) : option str * str :=
+    let cc := convert nc is_class n in
+    ((if str_eqb cc n then None else Some n), escape cc).
 
   Definition conv (n : str) : str := convert nc false n.
   Definition conv_esc (n : str) : str := escape (conv n).
@@ -182,7 +189,7 @@ Section Gen.
        existsb (fun m =>
          starts_with (rm_id m) path && starts_with (rm_id m) class_path &&
          str_eqb (lstrip_chars SL (lstrip_chars (rm_id m) path)) name && str_eqb name class_name) (snd kv))
-       (api_reexport_map a)).
+       reexport_map).
 
   (* _add_to_imports *)
   Definition add_to_imports (import_qname : str) : M unit :=
@@ -198,11 +205,11 @@ Section Gen.
         if contains module_id import_qname then ret tt
         else
           let path := dot_to_slash import_qname in
-          match find (fun kv => is_path_connected_to_class path (fst kv)) (api_classes a) with
+          match find (fun kv => is_path_connected_to_class path (fst kv)) classes with
           | Some (class_id, _) =>
             let q := slash_to_dot class_id in
             let name := last (split_ch dot q) [] in
-            let '((shortest, _), tie) := shortest_public_reexport (api_reexport_map a) name q false in
+            let '((shortest, _), tie) := shortest_public_reexport reexport_map name q false in
             let q' := if nonempty shortest then shortest ++ DOT ++ name else q in
             let q'' := if nonempty q' then q' else import_qname in
             modify (with_tie tie) ;;
@@ -445,7 +452,8 @@ Section Gen.
   Definition is_vararg (k : passign) : bool :=
     match k with POSITIONAL_VARARG | NAMED_VARARG => true | _ => false end.
 
-  Definition one_param (p : param) : M str :=
+  (* the four pieces of a rendered parameter: annotation (Python name or none), identifier, ": type", " = default" *)
+  Definition param_fields (p : param) : M (option str * str * str * str) :=
     mdo tv <- (match p_type p with
                | Some t =>
                  mdo value <- (if p_optional p then mdo d <- render_default p; ret (K" = " ++ d) else ret []);
@@ -466,10 +474,14 @@ Section Gen.
      | _ => ret tt
      end) ;;
     (if is_vararg (p_assigned p) then add_todo (K"variadic") else ret tt) ;;
-    let name := p_name p in
-    let cc := conv name in
-    let ann := if str_eqb cc name then [] else name_annotation name ++ K" " in
-    ret (ann ++ escape cc ++ fst tv ++ snd tv).
+    let en := emit_name false (p_name p) in
+    ret (fst en, snd en, fst tv, snd tv).
+
+  Definition render_param (f : option str * str * str * str) : str :=
+    let '(ann, nm, ts, v) := f in
+    (match ann with Some n => name_annotation n ++ K" " | None => [] end) ++ nm ++ ts ++ v.
+
+  Definition one_param (p : param) : M str := mdo f <- param_fields p; ret (render_param f).
 
   (* _create_parameter_string *)
   Definition parameter_string (ps : list param) (indent : str) (is_instance_method : bool) : M str :=
@@ -587,25 +599,23 @@ Section Gen.
       mdo params <- parameter_string (f_params f) indent (negb (f_static f) && is_method);
       mdo tvi <- type_var_info f is_method;
       let doc := sds_docstring (d_desc (f_doc f)) (d_examples (f_doc f)) (Some (f_params f)) (Some (f_rdocs f)) indent in
-      let name := f_name f in
-      let cc := conv name in
-      let ann := if str_eqb cc name then [] else indent ++ name_annotation name ++ NL in
+      let en := emit_name false (f_name f) in
+      let ann := match fst en with None => [] | Some n => indent ++ name_annotation n ++ NL end in
       mdo rs <- result_string (f_results f);
       mdo todo <- create_todo_msg indent;
-      ret (todo ++ doc ++ indent ++ K"@Pure" ++ NL ++ ann ++ indent ++ static ++ K"fun " ++ escape cc ++ tvi ++
+      ret (todo ++ doc ++ indent ++ K"@Pure" ++ NL ++ ann ++ indent ++ static ++ K"fun " ++ snd en ++ tvi ++
            K"(" ++ params ++ K")" ++ rs)
     end.
 
   Definition property_string (f : func) (indent : str) : M str :=
-    let name := f_name f in
-    let cc := conv name in
-    let ann := if str_eqb cc name then [] else name_annotation name ++ K" " in
+    let en := emit_name false (f_name f) in
+    let ann := match fst en with None => [] | Some n => name_annotation n ++ K" " end in
     let doc := sds_docstring_description (d_desc (f_doc f)) indent in
     let rtypes := flat_map (fun r => match r_type r with Some t => [t] | None => [] end) (f_results f) in
     mdo pt <- type_string (TUnion rtypes);
     let ts := match pt with [] => [] | _ => K": " ++ pt end in
     mdo todo <- create_todo_msg indent;
-    ret (todo ++ doc ++ indent ++ ann ++ K"attr " ++ escape cc ++ ts).
+    ret (todo ++ doc ++ indent ++ ann ++ K"attr " ++ snd en ++ ts).
 
   (* _create_class_method_string *)
   Fixpoint class_methods (ms : list func) (inner : str) (is_internal_class : bool) (already : list str)
@@ -642,14 +652,14 @@ Section Gen.
       else
         let static := if a_static at_ then K"static " else [] in
         let name := a_name at_ in
-        let cc := conv name in
-        let ann := if str_eqb cc name then [] else name_annotation name ++ NL ++ inner in
+        let en := emit_name false name in
+        let ann := match fst en with None => [] | Some n => name_annotation n ++ NL ++ inner end in
         mdo ts <- type_string_opt (a_type at_);
         let tstr := match ts with [] => [] | _ => K": " ++ ts end in
         (match tstr with [] => add_todo (K"attr without type") | _ => ret tt end) ;;
         let doc := sds_docstring (a_doc_desc at_) [] None None inner in
         mdo todo <- create_todo_msg inner;
-        class_attrs rest inner (acc ++ [todo ++ doc ++ inner ++ ann ++ static ++ K"attr " ++ escape cc ++ tstr])
+        class_attrs rest inner (acc ++ [todo ++ doc ++ inner ++ ann ++ static ++ K"attr " ++ snd en ++ tstr])
                     (set_add name names)
       end.
 
@@ -664,12 +674,12 @@ Section Gen.
     let segs := split_ch "/"%char q in
     let class_path := join SL (removelast segs) in
     let class_name := last segs [] in
-    match find (fun kv => str_eqb (fst kv) q) (api_classes a) with
+    match find (fun kv => str_eqb (fst kv) q) classes with
     | Some (_, c) => Ok c
     | None =>
       match find (fun kv => ends_with q (fst kv) ||
                             (starts_with (class_path ++ SL) (fst kv) && ends_with (SL ++ class_name) (fst kv)))
-                 (api_classes a) with
+                 classes with
       | Some (_, c) => Ok c
       | None => Err LookupError
       end
@@ -716,9 +726,8 @@ Section Gen.
            | g => ret (K"<" ++ join (K", ") g ++ K">")
            end
          else ret []);
-      let cname := c_name c in
-      let cc := convert nc true cname in
-      let pyname := if str_eqb cc cname then [] else indent ++ name_annotation cname ++ NL in
+      let en := emit_name true (c_name c) in
+      let pyname := match fst en with None => [] | Some n => indent ++ name_annotation n ++ NL end in
       mdo signature_todo <- create_todo_msg indent;
       mdo at_ <- class_attribute_string (c_attrs c) inner;
       let '(attr_text, attr_names) := at_ in
@@ -745,7 +754,7 @@ Section Gen.
       let superclass_info := match super_names with [] => [] | _ => K" sub " ++ join (K", ") super_names end in
       (if 2 <=? List.length super_names then add_todo (K"multiple_inheritance") else ret tt) ;;
       mdo inheritance_todo <- create_todo_msg indent;
-      let signature := pyname ++ indent ++ signature_todo ++ inheritance_todo ++ K"class " ++ escape cc ++ variance_info ++
+      let signature := pyname ++ indent ++ signature_todo ++ inheritance_todo ++ K"class " ++ snd en ++ variance_info ++
                        ctor_info ++ superclass_info in
       let class_text := attr_text ++ cat inner_texts ++ super_methods_text ++ method_text in
       let doc := sds_docstring (d_desc (c_doc c)) (d_examples (c_doc c))
@@ -781,10 +790,9 @@ Section Gen.
     | insts =>
       signature ++ K" {" ++ NL ++
       cat (map (fun it : str * str =>
-                  let name := snd it in
-                  let cc := conv name in
-                  let ann := if str_eqb cc name then [] else name_annotation name ++ K" " in
-                  t_indentation ++ ann ++ escape cc ++ NL) insts) ++ K"}"
+                  let en := emit_name false (snd it) in
+                  let ann := match fst en with None => [] | Some n => name_annotation n ++ K" " end in
+                  t_indentation ++ ann ++ snd en ++ NL) insts) ++ K"}"
     end.
 
   (* _create_imports_string *)
@@ -805,7 +813,7 @@ Section Gen.
     (if str_eqb package_info cc then [] else K"@PythonModule(""" ++ package_info ++ K""")" ++ NL) ++
     K"package " ++ cc ++ NL.
 
-  Definition class_fuel : nat := S (S (List.length (api_classes a))) * 4.
+  Definition class_fuel : nat := S (S (List.length classes)) * 4.
 
   (* __call__ + _create_module_string *)
   Definition module_string (m : module_) : M (str * str) :=
@@ -813,7 +821,7 @@ Section Gen.
     modify (fun s => {| g_module_id := g_module_id s; g_reexport_module_id := []; g_creating_reexport := g_creating_reexport s;
                         g_class_generics := []; g_imports := []; g_todos := []; g_outside := g_outside s;
                         g_buckets := g_buckets s; g_renames := g_renames s; g_tie := g_tie s |}) ;;
-    let '((pinfo, _), tie) := shortest_public_reexport (api_reexport_map a) (m_name m) [] true in
+    let '((pinfo, _), tie) := shortest_public_reexport reexport_map (m_name m) [] true in
     modify (with_tie tie) ;;
     let in_reexport_module := nonempty pinfo in
     let package_info := if nonempty pinfo then pinfo else slash_to_dot (m_id m) in
